@@ -46,6 +46,18 @@ CHECKS = {
                   '7 content kinds: TLC decodes each symbol and checks count, version, QR-only, validity, fit, header position/total, '
                   'parity = XOR of the message bytes, reassembly. The open finding (over-full symbols with a requested version) is accepted '
                   'only when the named deviation Dev_SeqEstimateOnly reproduces the observation exactly.', ref='6 C08'),
+ 'C09': dict(tech='TLA+ raster machines (spec/Render.tla: PNG un-filtering / sample unpacking / palette, Netpbm, XBM, XPM, text grids) judging recorded files with TLC',
+             text='~1 400 files (sizes x borders x scales covering every row-length residue mod 8 x 17 colour kinds x options) are parsed at '
+                  'container level by the projection (chunk CRC, inflate) and decoded pixel by pixel in TLA+; every pixel / cell is '
+                  'compared with Cell(M, b, y div s, x div s) and the colour the specification derives from the colour argument.', ref='6 C09'),
+ 'C10': dict(tech='TLA+ pen machine (spec/Vector.tla) replaying the drawing program of recorded SVG / EPS / PDF / PGF documents with TLC',
+             text='The drawing operators of each document are tokenised by the projection and replayed by TLC: the bag of unit squares the '
+                  'strokes cover (before the document scale, which is its own clause) must equal the dark modules offset by the border, each '
+                  'once, inside the page; page box, colours, background, PDF /Length and xref offsets, SVG options are separate clauses.', ref='6 C10'),
+ 'C11': dict(tech='TLA+ ISO module classification (ISOTables!ClassG) compared by TLC with recorded matrix_iter output and colourful PNG / SVG / PPM documents',
+             text='Every module of all 44 symbol sizes (plain and verbose iteration) is compared with the class the specification derives '
+                  'from the geometry; colourful documents are decoded (Render / Vector machines) and every module colour compared with the '
+                  'option of its type. The single misclassified module (8, size-9) is accepted only via the named deviation.', ref='6 C11'),
 }
 
 NOT_YET = {}
